@@ -1,0 +1,20 @@
+//go:build verif
+
+package crdt
+
+// Contracts for property C38, multi-value register helpers: surviving entries
+// are identified by their causal dot alone.
+
+//@ property C38
+
+//@ func containsMVDot(entries, d)
+//@   loop 1 invariant none-so-far: -1 <= rangeindex && rangeindex < len(entries) && forall j int :: 0 <= j && j <= rangeindex ==> !(entries[j].dot.nodeID == d.nodeID && entries[j].dot.counter == d.counter)
+//@   ensures finds-exactly-that-dot: result == exists(j, 0, len(entries), entries[j].dot.nodeID == d.nodeID && entries[j].dot.counter == d.counter)
+//@   ensures leaves-the-entries-alone: forall j int :: 0 <= j && j < len(entries) ==> entries[j] == old(entries[j])
+
+// a write with a new dot is always kept - whatever its value: two nodes writing
+// the same value concurrently are two writes
+//@ func appendMVEntryUnique(entries, e)
+//@   ensures a-new-dot-is-always-kept: !exists(j, 0, len(entries), entries[j].dot.nodeID == e.dot.nodeID && entries[j].dot.counter == e.dot.counter) ==> len(result) == len(entries) + 1
+//@   ensures a-known-dot-is-not-duplicated: exists(j, 0, len(entries), entries[j].dot.nodeID == e.dot.nodeID && entries[j].dot.counter == e.dot.counter) ==> len(result) == len(entries)
+//@   ensures keeps-what-was-there: forall j int :: 0 <= j && j < len(entries) ==> result[j] == old(entries[j])
